@@ -296,6 +296,13 @@ def run_property(prop, tier, seed=0):
             mod.run(ctx)
         except AnchorMissing:
             pass
+        except Exception as e:      # a rule that cannot digest the shape of the code fails closed, with the trace as its witness
+            import traceback
+            tb = traceback.format_exc()
+            ctx.violation("internal", "rule-error:%s" % type(e).__name__,
+                          "the rule module raised %s while analysing this tree (%s): the check cannot vouch for the property on code "
+                          "of this shape — failing closed" % (type(e).__name__, str(e)[:160]), where="oxv/rules/%s.py" % prop,
+                          witness={"traceback": tb[-1500:]})
         for v in ctx.violations:
             if not any(x["key"] == v["key"] and x["rule"] == v["rule"] for x in all_viol):
                 v = dict(v)
